@@ -398,4 +398,26 @@ theorem trustanchor_emits (ext : Externals) (args : TaArgs) (cfg : TaConfig) :
     · exact Emits.pure _
     · exact Emits.pure _
 
+/-! ### order -/
+
+theorem sortDigests_sorted (l : List KeyDigest) :
+    (sortDigests l).Pairwise (fun a b => a.validFrom ≤ b.validFrom) ∧ (sortDigests l).Perm l := by
+  refine ⟨?_, List.mergeSort_perm l _⟩
+  have := List.pairwise_mergeSort (le := fun a b : KeyDigest => decide (a.validFrom ≤ b.validFrom))
+    (by intro a b c h1 h2; simp only [decide_eq_true_eq] at *; omega)
+    (by intro a b; simp only [Bool.or_eq_true, decide_eq_true_eq]; omega) l
+  exact this.imp (by intro a b h; simpa using h)
+
+theorem pairwise_ne_of_mem {l : List KeyDigest} (hl : l.Pairwise (fun a b => a.validFrom ≠ b.validFrom))
+    {a b : KeyDigest} (ha : a ∈ l) (hb : b ∈ l) (hn : a ≠ b) : a.validFrom ≠ b.validFrom := by
+  induction l with
+  | nil => simp at ha
+  | cons x r ih =>
+    rw [List.pairwise_cons] at hl
+    rcases List.mem_cons.mp ha with rfl | ha' <;> rcases List.mem_cons.mp hb with rfl | hb'
+    · exact absurd rfl hn
+    · exact hl.1 _ hb'
+    · exact fun e => hl.1 _ ha' e.symm
+    · exact ih hl.2 ha' hb'
+
 end Kskm.C18
